@@ -148,8 +148,43 @@ func ReactScenarios() []History {
 		Ev{Name: "Respond", Signer: "p3", Rid: rid(1, 1, 1, 0), Kind: "valid"},
 		eb(1), eb(1), eb(1),
 		Ev{Name: "Withdraw", Signer: "o1"},
+		// a price cut, a new provider and a new withdrawal address in a transaction that fails: none of them happened
+		Ev{Name: "TxBegin"},
+		Ev{Name: "UpdateBinding", Signer: "o1", Svc: "s2", Prov: "p3", HasPr: true, Pr: pr(1)},
+		Ev{Name: "UpdateBinding", Signer: "o1", Svc: "s1", Prov: "p1", HasPr: true, Pr: pr(9), Deposit: 20, DShape: "ok"},
+		Ev{Name: "Bind", Signer: "o2", Svc: "s2", Prov: "pz", Deposit: 40, DShape: "ok", Pr: pr(2), Qos: 1},
+		Ev{Name: "SetWithdrawAddr", Signer: "o1", Addr: "c2"},
+		Ev{Name: "Disable", Signer: "o2", Svc: "s1", Prov: "p1"}, // not o2's: the transaction fails
+		Ev{Name: "TxEnd"},
+		Ev{Name: "Call", Signer: "c1", Svc: "s2", Provs: []string{"p3", "pz"}, Cap: 10, Timeout: 2}, // p3 at its old price 2, pz unknown
+		Ev{Name: "Call", Signer: "c1", Svc: "s1", Provs: both, Cap: 10, Timeout: 2},                  // p1 at its old price 5
+		Ev{Name: "Bind", Signer: "o1", Svc: "s2", Prov: "pz", Deposit: 40, DShape: "ok", Pr: pr(2), Qos: 1}, // pz is still nobody's
+		eb(1),
+		Ev{Name: "Respond", Signer: "p3", Rid: rid(3, 1, 5, 0), Kind: "valid"},
+		Ev{Name: "Respond", Signer: "p1", Rid: rid(4, 1, 5, 0), Kind: "bad"},
+		Ev{Name: "Respond", Signer: "p2", Rid: rid(4, 1, 5, 1), Kind: "bad"},
+		Ev{Name: "Withdraw", Signer: "o1"},
+		eb(1), eb(1),
+		Ev{Name: "Obs"},
 	)
 	add("transactions-of-several-messages", smallParams(), nil, ops...)
+
+	// discounts spelled so that the stateless validation has to refuse them - "005" is five, "1.5" and "1" are no
+	// discounts; were one accepted, a request under it would carry more than the base price
+	ops = []Ev{
+		{Name: "Define", Signer: "o1", Svc: "s1"},
+		{Name: "Bind", Signer: "o1", Svc: "s1", Prov: "p1", Deposit: 400, DShape: "ok", Qos: 1,
+			Pr: MPricing{Price: 3, PT: []PromoT{{S: NowOffset - 5, E: NowOffset + 50, D: 500, Raw: "005"}}, PV: []PromoV{}}},
+		{Name: "Bind", Signer: "o1", Svc: "s1", Prov: "p2", Deposit: 400, DShape: "ok", Qos: 1,
+			Pr: MPricing{Price: 3, PT: []PromoT{}, PV: []PromoV{{V: 0, D: 150, Raw: "1.5"}}}},
+		{Name: "Bind", Signer: "o2", Svc: "s1", Prov: "p3", Deposit: 400, DShape: "ok", Qos: 1,
+			Pr: MPricing{Price: 3, PT: []PromoT{{S: NowOffset - 5, E: NowOffset + 50, D: 100, Raw: "1"}}, PV: []PromoV{}}},
+		{Name: "Bind", Signer: "o2", Svc: "s1", Prov: "pz", Deposit: 400, DShape: "ok", Qos: 1,
+			Pr: MPricing{Price: 3, PT: []PromoT{{S: NowOffset - 5, E: NowOffset + 50, D: 50, Raw: "0.50"}}, PV: []PromoV{}}},
+		{Name: "Call", Signer: "c1", Svc: "s1", Provs: []string{"p1", "p2", "p3", "pz"}, Cap: 100, Timeout: 2},
+		eb(1), eb(1), eb(1),
+	}
+	add("discounts-that-are-none", smallParams(), nil, ops...)
 
 	// odds and ends at their boundaries: a consumer who holds exactly the price of a batch; a one-shot context
 	// of a module whose consumer cannot pay; a withdrawal address chosen, changed and set back to the owner,
